@@ -129,7 +129,16 @@ func Lt(t *Thread, x, y Value) (bool, error) {
 	return false, compareError(x, y)
 }
 
+// twoTo63 is 2^63 as a float: the smallest float that is larger than every
+// int64 (and -twoTo63 is math.MinInt64 exactly).  int64(f) is not reliable for
+// floats outside [-2^63, 2^63), so the mixed comparisons below deal with those
+// before converting.
+const twoTo63 = float64(1 << 63)
+
 func ltIntAndFloat(n int64, f float64) bool {
+	if f >= twoTo63 {
+		return true
+	}
 	nf := int64(f)
 	if float64(nf) == f {
 		return n < nf
@@ -154,6 +163,9 @@ func leIntAndFloat(n int64, f float64) bool {
 }
 
 func leFloatAndInt(f float64, n int64) bool {
+	if f >= twoTo63 {
+		return false
+	}
 	nf := int64(f)
 	if float64(nf) == f {
 		return nf <= n
